@@ -1012,6 +1012,7 @@ var (
 	c12ProfEnds = &c12Profile{name: "ends", siteSets: []string{"-", "A", "AW"}, siteOpts: c12AllOpts, seqChars: "", cuts: c12CutsEnds}
 	c12ProfTieC = &c12Profile{name: "tiecol", siteSets: []string{"A"}, siteOpts: c12TieOpts, seqChars: "", cuts: c12CutsFullC}
 	c12ProfTieR = &c12Profile{name: "tierow", siteSets: nil, seqChars: "A", cuts: c12CutsFullC}
+	c12ProfLetters = &c12Profile{name: "letters", siteSets: []string{"-"}, siteOpts: c12AllOpts, seqChars: "", cuts: c12CutsGrid}
 	c12ProfWide = &c12Profile{name: "wide", siteSets: []string{"-", "A", "AN"}, siteOpts: c12AllOpts, seqChars: "-A", cuts: c12CutsGrid}
 )
 
@@ -1167,6 +1168,16 @@ func c12Tasks(tier string) []mc.Task {
 		}
 		c12Cur.flush(c)
 	}})
+	// (3d) every letter in both cases: one column of 3 rows over {X, x, -} for each letter X but A, W, O (those are
+	// the families above): case folding of the majority / chosen character is the same for all 26 letters
+	for _, a := range alphas {
+		for ch := byte('B'); ch <= 'Z'; ch++ {
+			if ch == 'W' || ch == 'O' {
+				continue
+			}
+			ts = c12Block(ts, "letters", a, string([]byte{ch, ch + 32, '-'}), 3, 1, c12ProfLetters)
+		}
+	}
 	// (4) exact ties and their neighbours: one column of n rows (site operations) /
 	// one row of L sites (sequence operations) over {A,-}
 	for n := colMax + 1; n <= tieMax; n++ {
